@@ -310,10 +310,10 @@ func (ex *Exec) main() {
 	var wg sync.WaitGroup
 	ex.trigWG = &wg
 	seenRPC := map[string]int{}
-	firedTop := map[int]bool{}
 	planned := len(p.Nodes)
 	_ = planned
 	seenStart := map[string]int{}
+	firedTop := map[int]bool{}
 	c.OnStart = func(call simnet.Call) {
 		if ex.quietPhase {
 			return
@@ -321,6 +321,18 @@ func (ex *Exec) main() {
 		seenStart[call.Method]++
 		for ti := range p.Triggers {
 			tr := p.Triggers[ti]
+			if tr.AtStart && tr.Serving && tr.Nth == 0 && tr.OnMethod == call.Method && !firedTop[ti] {
+				req := &protocol.RequestToJoinRequest{}
+				callee := ex.c.ByName(call.To)
+				if callee == nil || req.UnmarshalVT(call.ReqBody) != nil || ex.membersNow() < tr.MinMembers || ex.ownerNow(req.GetJoiner().GetId()) != callee {
+					continue
+				}
+				firedTop[ti] = true
+				simrt.Probe("trigger-at-serving-node")
+				ex.trigActive++
+				simrt.GoGroup(fmt.Sprintf("h:trigger%d", ti), "", func() { defer func() { ex.trigActive-- }(); ex.fire(tr, call) })
+				continue
+			}
 			if tr.AtStart && tr.Nth > 0 && tr.OnMethod == call.Method && tr.Nth == seenStart[call.Method] {
 				simrt.Probe("trigger-at-start/" + call.Method)
 				ex.trigActive++
@@ -860,6 +872,36 @@ func (ex *Exec) reportHung(hung []*pendingCall) {
 			ex.res.Violate("C02", "node-not-serving/hung", "node %s (id %d) does not answer any more, the ring cannot settle; calls that never returned: %s", h.Name, h.ID, names)
 		}
 	}
+}
+
+func (ex *Exec) membersNow() int {
+	n := 0
+	for _, x := range ex.c.Slots {
+		if x != nil && x.Joined && !x.Left && !x.Crashed {
+			n++
+		}
+	}
+	return n
+}
+
+// ownerNow returns the member that is the ring successor of id.
+func (ex *Exec) ownerNow(id uint64) *NodeH {
+	var best, lowest *NodeH
+	for _, x := range ex.c.Slots {
+		if x == nil || !x.Joined || x.Left || x.Crashed {
+			continue
+		}
+		if lowest == nil || x.ID < lowest.ID {
+			lowest = x
+		}
+		if x.ID >= id && (best == nil || x.ID < best.ID) {
+			best = x
+		}
+	}
+	if best == nil {
+		return lowest
+	}
+	return best
 }
 
 // extreme returns the current member with the largest (or smallest) identifier.
